@@ -1,7 +1,7 @@
 (* Projections of the bundled postcondition op_post onto the three properties it serves. *)
 From Coq Require Import ZArith Lia Bool.
-From Apd Require Import Generated.Consts Model.Base Model.NumDigits Model.Decimal Model.Context Spec.SpecZ Spec.Order
-  Proofs.Digits Proofs.Core Proofs.SetExponent Proofs.RoundSpec Proofs.OpsProofs Proofs.QuoProofs.
+From Apd Require Import Generated.Consts Model.Base Model.NumDigits Model.Decimal Model.Context Model.Text Spec.SpecZ Spec.Order
+  Proofs.Digits Proofs.Core Proofs.SetExponent Proofs.RoundSpec Proofs.OpsProofs Proofs.QuoProofs Proofs.SeRoundProofs.
 Open Scope Z_scope.
 
 Definition rdec_value (r : res result) : option dec := match r with Ok r => rdec r | _ => None end.
@@ -189,6 +189,46 @@ Lemma c07_quo c (x y : dec) : quo_hyps c x y ->
 Proof.
   intros (Hc & H0 & H1 & H2 & H3 & H4). destruct (quo_op_post est HE c x y Hc H0 H1 H2 H3 H4) as (d & f & Hr & Hp).
   exists d, f. split; [exact Hr|]. exact (post_c07 c _ d f Hp).
+Qed.
+
+(* Mul: every pair of finite operands (the exact product in, above or below the exponent range) *)
+Definition mul_hyps (c : ctx) (x y : dec) : Prop :=
+  ctx_ok c /\ emin c <= MaxExponent /\ finite_nn x /\ finite_nn y /\ in_lim (exp x) /\ in_lim (exp y) /\
+  exact_in_limits c (exact_mul x y) /\ (coeff x * coeff y = 0 -> clamp_ok c (exp x + exp y)).
+
+Lemma c01_mul c (x y : dec) : mul_hyps c x y ->
+  exists d f, ctx_mul est c x y = Ok (finish c d f) /\ c01_post c (exact_mul x y) d.
+Proof.
+  intros (H0 & H1 & H2 & H3 & H4 & H5 & H6 & H7). destruct (mul_correct est HE c x y H0 H1 H2 H3 H4 H5 H6 H7) as (d & f & Hr & Hp).
+  exists d, f. split; [exact Hr|]. exact (post_c01 c _ d f Hp).
+Qed.
+Lemma c02_mul c (x y : dec) : mul_hyps c x y ->
+  exists d f, ctx_mul est c x y = Ok (finish c d f) /\ c02_post c (exact_mul x y) d f.
+Proof.
+  intros (H0 & H1 & H2 & H3 & H4 & H5 & H6 & H7). destruct (mul_correct est HE c x y H0 H1 H2 H3 H4 H5 H6 H7) as (d & f & Hr & Hp).
+  exists d, f. split; [exact Hr|]. exact (post_c02 c _ d f Hp).
+Qed.
+Lemma c07_mul c (x y : dec) : mul_hyps c x y ->
+  exists d f, ctx_mul est c x y = Ok (finish c d f) /\ c07_post c d.
+Proof.
+  intros (H0 & H1 & H2 & H3 & H4 & H5 & H6 & H7). destruct (mul_correct est HE c x y H0 H1 H2 H3 H4 H5 H6 H7) as (d & f & Hr & Hp).
+  exists d, f. split; [exact Hr|]. exact (post_c07 c _ d f Hp).
+Qed.
+
+(* context-aware parsing of a string that denotes a finite number: the parsed value rounded once; when the
+   conditions raised while the exponent is set are trapped, the call returns the error and no value *)
+Definition set_string_hyps (c : ctx) (d : dec) : Prop :=
+  ctx_ok c /\ emin c <= MaxExponent /\ form_of d = Finite /\ 0 <= coeff d /\
+  exact_in_limits c (exact_of_dec d) /\ (coeff d = 0 -> clamp_ok c (exp d)).
+
+Lemma c01_c02_c07_set_string c s (d : dec) : set_string_raw s = Some d -> set_string_hyps c d ->
+  exists d2 f, c01_post c (exact_of_dec d) d2 /\ c02_post c (exact_of_dec d) d2 f /\ c07_post c d2 /\
+    (ctx_set_string est c s = Ok (Some (d2, f, ctx_go_error c f)) \/ ctx_set_string est c s = Ok None).
+Proof.
+  intros Hp (H0 & H1 & H2 & H3 & H4 & H5).
+  destruct (set_string_correct est HE c s d H0 H1 Hp H2 H3 H4 H5) as (d2 & f & Hpost & Hr).
+  exists d2, f. split; [exact (post_c01 c _ d2 f Hpost)|]. split; [exact (post_c02 c _ d2 f Hpost)|].
+  split; [exact (post_c07 c _ d2 f Hpost)|exact Hr].
 Qed.
 
 End WithEst.
